@@ -49,6 +49,9 @@ class Evaluator:
     def value(self, s, w=0, env=None):
         I = self.I
         if self.opaque(s):
+            if s.variables:
+                inst = tuple((tuple(v.spec), (env or {}).get(v)) for v in sorted(s.variables))
+                return I.get('O', {}).get((s.ident, inst, w), self.un)
             return I.get('O', {}).get((s.ident, w), self.un)
         tn = type(s).__name__
         if tn == 'Atomic':
@@ -159,7 +162,11 @@ def interp_from_z3(I, model):
         elif k0 == 'A':
             out['A'][(tuple(key[1]), key[2])] = names[v.as_long()]
         elif k0 == 'O':
-            out['O'][(key[1], key[2])] = names[v.as_long()]
+            if len(key) == 4:
+                inst = tuple((tuple(vs), e) for vs, e in key[2])
+                out['O'][(key[1], inst, key[3])] = names[v.as_long()]
+            else:
+                out['O'][(key[1], key[2])] = names[v.as_long()]
         elif k0 == 'P':
             out['P'][(tuple(key[1]), tuple(key[2]), key[3])] = names[v.as_long()]
     return out
@@ -172,7 +179,7 @@ def interp_to_json(interp):
         wden=[[k, v] for k, v in interp['wden'].items()],
         A=[[list(k[0]), k[1], v] for k, v in interp['A'].items()],
         P=[[list(k[0]), list(k[1]), k[2], v] for k, v in interp['P'].items()],
-        O=[[_identjson(k[0]), k[1], v] for k, v in interp['O'].items()])
+        O=[[_identjson(k[0]), *[_identjson(x) for x in k[1:]], v] for k, v in interp['O'].items()])
 
 
 def _identjson(ident):
@@ -194,4 +201,4 @@ def interp_from_json(d):
         wden={int(k): v for k, v in d['wden']},
         A={(tuple(a), w): v for a, w, v in d['A']},
         P={(tuple(p), tuple(e), w): v for p, e, w, v in d['P']},
-        O={(_identtuple(i), w): v for i, w, v in d['O']})
+        O={tuple(_identtuple(x) for x in row[:-1]): row[-1] for row in d['O']})
